@@ -221,7 +221,19 @@ def idle_schedules(npieces):
     return _IDLE[npieces]
 
 
+_HANG = {}
+
+
 def execute(m, pieces, gaps=None):
+    """One execution under a watchdog (5 s, a hit is confirmed once with 20 s): a parse() that never
+    returns is the observation 'hangs'."""
+    res, hang = split.guarded(lambda: execute_raw(m, pieces, gaps), 5.0, 20.0, _HANG)
+    if hang is not None:
+        return dict(outcome="hangs", exc="spins in %s" % split.stuck_in(hang, "/ioflo/aio/http/")), 1
+    return res
+
+
+def execute_raw(m, pieces, gaps=None):
     """One execution of the real parser under one arrival schedule -> (observation, steps)."""
     from ioflo.aio.http import clienting, serving
     if m["kind"] == "req":
@@ -281,7 +293,7 @@ def work(arg):
     part = core.Part()
     wire = m["wire"]
     parser = "Requestant" if m["kind"] == "req" else "Respondent"
-    with core.watchdog(600):
+    if True:   # every execution runs under its own watchdog (execute)
         whole, steps = execute(m, [wire])
         part.transitions += steps
         part.traces += 1
@@ -357,6 +369,8 @@ def run():
         "LF-only heads are accepted input because parseLine/parseLeader are called with eols=(CRLF, LF); they are not mixed with CRLF "
         "(mixed line ends in one HTTP head are outside the statement; see C33 for the event-stream case)",
         "chunk-extension parameters are compared between split and whole parse only (the statement lists start line, headers, body, trailers)",
+        "a parse() call that does not return within 5 s, and again not within 20 s when the execution is repeated, is reported as 'hangs' "
+        "(an execution normally takes well under a millisecond)",
         "read-until-close responses: peer close is signalled with Respondent.close() after the last receive",
         "'its bytes' = the message's own bytes: the parse must be complete once the receive carrying the message's last byte has been "
         "parsed (field 'prompt'), not only after bytes of the next message arrive",
